@@ -125,6 +125,23 @@ def monitor(ctx, extended=False):
                 ctx.violation(what, {'args': a, 'use_sf': True, 'use_sqrtcx': True}, key=key)
             else:
                 classes.add(('bound-only', key, lo))
+        # the documented boundary value vls = 0 (slip_ratio replaces it by 0.01 m/s), as float and as int
+        for _ in range(ctx.n(60, 2000)):
+            a = list(E.point(ctx.rng))
+            a[0] = ctx.rng.choice([0.0, 0])
+            ctx.count('evaluations')
+            try:
+                with time_limit(30):
+                    Xi = F.slip_ratio(*a)
+                    cvs = F.Cvs_from_Cvt(*a)
+                ok = isinstance(Xi, float) and 0 <= Xi <= 1 - a[7] / 0.6 + 1e-12 and a[7] * (1 - 1e-12) <= cvs <= 0.6 * (1 + 1e-12)
+                what = f'at vls = {a[0]!r}: slip ratio {Xi!r}, derived Cvs {cvs!r} (Cvt = {a[7]!r})'
+            except Exception as e:   # noqa
+                ok, what = False, f'slip_ratio / Cvs_from_Cvt raised {type(e).__name__}: {e} at vls = {a[0]!r}'
+            if not ok:
+                ctx.violation(what, {'args': a, 'use_sf': True, 'use_sqrtcx': True}, key='slip-at-zero-speed')
+            else:
+                classes.add(('vls0', type(a[0]).__name__))
     finally:
         F.use_sf, F.use_sqrtcx = True, True
     ctx.stats['distinct_nontrivial'] = len(classes)
